@@ -32,7 +32,7 @@ MANIFEST = {
     "level_note": "sampled pairs; executor replaced by the ray stand-in",
 }
 VARIANTS = ["truth_only", "ukf_params", "policy", "sensor_set", "sensor_noise", "seed", "output_cadence", "split_calls", "schedule_reverse",
-            "schedule_random", "exec_order_reverse", "exec_order_random", "extra_target_static", "extra_target_static", "fewer_targets_static", "target_added_by_event", "target_removed_by_event", "filter_model", "maneuver_detection"]
+            "schedule_random", "exec_order_reverse", "exec_order_random", "extra_target_static", "extra_target_static", "fewer_targets_static", "target_added_by_event", "target_removed_by_event", "id_reused_after_removal", "same_timed_burn_on_other_agent", "filter_model", "maneuver_detection"]
 
 
 def trajectory(cfg, nsteps, **kw):
@@ -183,6 +183,44 @@ def make_pair(net, variant, rng):
         b["estimation"]["sequential_filter"]["dynamics_model"] = "special_perturbations" if model == "two_body" else "two_body"
     elif variant == "maneuver_detection":
         b["estimation"]["sequential_filter"]["maneuver_detection"] = {"name": "sliding_nis", "threshold": 0.05, "window_size": 2}
+    elif variant == "id_reused_after_removal":
+        # both runs: target 19700 joins at step j. Run B only: another satellite carried the id 19700 from the start and was
+        # removed at step i < j. From step j on the truth of 19700 depends only on the dynamics and the state it joined with.
+        start = datetime.fromisoformat(net["start"])
+        i_rm = rng.randrange(1, max(2, n - 2))
+        j_add = rng.randrange(i_rm + 1, max(i_rm + 2, n))
+        r1, v1 = sk.circ_state(8300.0, 63.0, 40.0, 100.0)
+        add = {"scope": "scenario_step", "scope_instance_id": 0, "start_time": sk.iso(start + timedelta(seconds=net["step"] * j_add)),
+               "event_type": "target_addition", "tasking_engine_id": 1, "target_agent": sk.target_cfg(19700, r1, v1)}
+        a["events"].append(copy.deepcopy(add))
+        r0, v0 = sk.circ_state(7600.0, 30.0, 300.0, 10.0)
+        b["engines"][0]["targets"].append(sk.target_cfg(19700, r0, v0))
+        b["events"].append({"scope": "scenario_step", "scope_instance_id": 0, "start_time": sk.iso(start + timedelta(seconds=net["step"] * i_rm)),
+                            "event_type": "agent_removal", "tasking_engine_id": 1, "agent_id": 19700, "agent_type": "target"})
+        b["events"].append(copy.deepcopy(add))
+    elif variant == "same_timed_burn_on_other_agent":
+        # both runs: the first target burns over [t1, t2]. Run B only: an extra satellite burns over exactly the same interval
+        # (same event type); its events are stored before or after the first target's.
+        start = datetime.fromisoformat(net["start"])
+        k1 = rng.randrange(0, max(1, n - 1))
+        t1 = start + timedelta(seconds=net["step"] * k1 + rng.choice([0, 1, net["step"] // 2]))
+        t2 = t1 + timedelta(seconds=rng.choice([net["step"], net["step"] // 2 + 1, 2 * net["step"]]))
+        kind = rng.choice(["finite_burn", "finite_maneuver"])
+
+        def burn(tid, vec, mag):
+            ev = {"scope": "agent_propagation", "scope_instance_id": tid, "start_time": sk.iso(t1), "end_time": sk.iso(t2), "event_type": kind, "planned": rng.random() < 0.5}
+            if kind == "finite_burn":
+                ev.update({"acc_vector": vec, "thrust_frame": "ntw"})
+            else:
+                ev.update({"maneuver_mag": mag, "maneuver_type": "spiral"})
+            return ev
+
+        mine = burn(a["engines"][0]["targets"][0]["id"], [0.0, 2e-5, 0.0], 2e-5)
+        a["events"].append(copy.deepcopy(mine))
+        r, v = sk.circ_state(8100.0, 77.0, 12.0, 222.0)
+        b["engines"][0]["targets"].append(sk.target_cfg(19001, r, v))
+        other = burn(19001, [1e-5, 0.0, 1e-5], 1e-5)
+        b["events"] += [other, copy.deepcopy(mine)] if rng.random() < 0.6 else [copy.deepcopy(mine), other]
     return a, ka, b, kb
 
 
@@ -275,6 +313,8 @@ def run(ctx):
         if variant in ("extra_target_static", "fewer_targets_static", "target_added_by_event", "target_removed_by_event", "exec_order_reverse", "exec_order_random") and rng.random() < 0.6:
             # agent-set and execution-order variants matter most where agents share more than the point-mass model
             net["truth_model"] = "special_perturbations"
+        if variant in ("id_reused_after_removal", "same_timed_burn_on_other_agent"):
+            net["nsteps"] = max(net["nsteps"], 4)
         if variant == "filter_model":
             # agents built after the estimates (spacecraft-hosted sensors, agents added by events) are the ones that
             # could inherit filter settings: make sure this variant always has some
